@@ -97,7 +97,7 @@ class Extraction:
         if not os.path.exists(gp) or not os.path.exists(fp):
             raise CannotDecide('driver produced no fact file (wrapper skipped?)')
         self.facts['main'] = Facts(gp)
-        self.facts['fixture'] = Facts(fp)
+        self.facts['fixture'] = Facts(fp, strip_prefix='gimli::')
         shutil.rmtree(os.path.join(self.tmp, 'tgt-main'), ignore_errors=True)
         self.times['main'] = time.time() - t0
         return self.facts['main'], self.facts['fixture']
